@@ -41,8 +41,6 @@ def generate(unit, snapshot, out_path, canary=False):
     metas[:] = [m for m in metas if not m.get('skipped')]
     generate.skipped = [m['fn'] for m in skipped]
     for m in metas:
-        before = '\n'.join(lines[:m['gen_lines'][0] - 1])
-        m['impl_ctx'] = impl_context(before)
         m['qual'] = (m['impl_ctx'] + '::' if m['impl_ctx'] else '') + m['fn']
     with open(out_path, 'w') as f:
         f.write(text)
